@@ -78,7 +78,7 @@ PROPS = {
     ),
     'C01': dict(
         title='Lexing and parsing are total',
-        verus=['lexer', 'tables', 'parser_core', 'parser_stmts', 'parser_exprs', 'parser_poetic'], kani=['c01_'],
+        verus=['lexer', 'tables', 'parser_core', 'parser_stmts', 'parser_exprs', 'parser_poetic', 'parser_names'], kani=['c01_'],
         technique=V + ' — PARTIAL: slicing preconditions (valid char-boundary slice = no out-of-bounds read in debug or '
                       'release) and u32 column arithmetic of the lexer primitives; every get_*_operator(..).unwrap() token '
                       'list extracted from parser.rs call sites proved total; parser token primitives, statement dispatch and '
@@ -91,14 +91,16 @@ PROPS = {
     ),
     'C02': dict(
         title='Every spelling of a program parses to the same syntax tree',
-        verus=['tables', 'parser_stmts', 'parser_core', 'parser_exprs', 'parser_poetic'], kani=[],
+        verus=['tables', 'parser_stmts', 'parser_core', 'parser_exprs', 'parser_poetic', 'parser_names'], kani=[],
         technique=V + ' — PARTIAL: get_unary/binary/mutation_operator, get_rounding_direction, is_literal_word, Block::new '
                       'against reference tables; statement level of the grammar: the dispatch table (starting token -> statement '
                       'kind) and each statement parser against the sequence of sub-parser calls, required and optional words and '
                       'the assembled node (sub-parsers abstract), block structure (blank line / else / end closes a block); '
                       'expression grammar: the precedence ladder logical < comparison < term < factor < unary (operator set and '
                       'next level of each level), left-associative fold, is-forms and their required words, comma lists and the '
-                      'no-nested-lists flag (next level defunctionalised). Identifiers, aliases, literals and comments are not decided',
+                      'no-nested-lists flag (next level defunctionalised); names: order of the name kinds, pronouns, dispatch of statements that '
+                      'start with a name, function definitions / calls, parameter and argument separators. Aliases, literals, '
+                      'capitalised / common name scanning and comments are not decided',
         level_note='partial: KEYWORDS alias table, primary expressions, identifier classes, comment skipping and '
                    'statements starting with a word are not under contract (DESIGN.md §5 C02)',
     ),
@@ -139,7 +141,7 @@ PROPS = {
     ),
     'C13': dict(
         title='Syntax errors are rejected and attributed to the line they occur on',
-        verus=['parser_core', 'parser_stmts', 'parser_exprs', 'lexer'], kani=[],
+        verus=['parser_core', 'parser_stmts', 'parser_exprs', 'parser_names', 'lexer'], kani=[],
         technique=V + ' — PARTIAL: over an abstract token stream (remaining tokens as a sequence): expect_token / expect_token_or_end / '
                       'expect_any / expect_eol consume exactly what they accept and otherwise return the error located at the '
                       'offending token (or the current line at end of input: new_parse_error); every statement in a block is followed '
@@ -151,7 +153,7 @@ PROPS = {
     ),
     'C15': dict(
         title='Renaming variables and re-casing names or keywords never changes behaviour',
-        verus=['sym_table', 'env'], kani=[],
+        verus=['sym_table', 'env', 'parser_names'], kani=[],
         technique=V + ' — PARTIAL (the per-call ingredient only): names are compared without regard to letter case on EVERY symbol-table '
                       'path — lookup, mutable lookup and insertion all address the entry under the case-folded key (generic HashMap impl '
                       'and the BTreeMap impl for proper names), one map per kind of name and the kind of the name alone picks the map, '
